@@ -486,7 +486,10 @@ def to_fpm_and_back(wavefunction, dx, efl, wavelength, fpm, fpm_dx, shift=(0, 0)
 
     field_after_fpm = field_at_fpm * fpm
 
-    field_at_next_pupil = unfocus_fixed_sampling(field_after_fpm, fpm_dx, efl, wavelength, dx, wavefunction.shape, shift=shift, method=method)  # NOQA
+    # the trip back undoes the trip out when it uses the same shift in *samples*;
+    # unfocus_fixed_sampling divides its shift by its output spacing (dx), the trip out divided by fpm_dx
+    shift_back = (shift[0]*dx/fpm_dx, shift[1]*dx/fpm_dx)
+    field_at_next_pupil = unfocus_fixed_sampling(field_after_fpm, fpm_dx, efl, wavelength, dx, wavefunction.shape, shift=shift_back, method=method)  # NOQA
 
     if return_more:
         return field_at_next_pupil, field_at_fpm, field_after_fpm
